@@ -182,7 +182,13 @@ impl Exec {
             }
             "flow.load" => {
                 let res = self.res(&op.s("res"));
-                let r = Arc::new(flow::Rule { id: "flow".into(), resource: res.clone(), threshold: op.f("thr"), stat_interval_ms: 1000, ..Default::default() });
+                // maxq=<ms>: a throttling (queueing) rule - an admitted request may have been made to wait (seed C20-f)
+                let mut rule = flow::Rule { id: "flow".into(), resource: res.clone(), threshold: op.f("thr"), stat_interval_ms: 1000, ..Default::default() };
+                if op.get("maxq").is_some() {
+                    rule.control_strategy = flow::ControlStrategy::Throttling;
+                    rule.max_queueing_time_ms = op.u("maxq") as u32;
+                }
+                let r = Arc::new(rule);
                 format!("{}", flow::load_rules_of_resource(&res, vec![r]).map(|b| b.to_string()).unwrap_or("err".into()))
             }
             "svc" => {
